@@ -813,6 +813,15 @@ def special_scheds(pid, th, rng):
             vals = list(range(1, n + 1))
             cmds = [{"c": "recvall", "o": "out", "d": n}, {"c": "recvall", "o": "exx", "d": n}] + [B(*([S()] * 50)) for _ in range(n // 50)] + [{"c": "close", "i": 0}]
             out.append({"cfg": C(kind=kind, forked=pid == "C09", par=3, cap=50, mode="try", inputs=[vals], fail=[v for v in vals if v % 10 != 0]), "cmds": cmds, "epilogue": "drain", "origin": "many-failures"})
+    if pid in ("C06", "C09"):
+        # error-jam: every element fails under Try and nobody ever reads the error channel; inputs of every length up to what the
+        # stage can absorb and a little beyond; then cancel + close: the workers stuck handing over an error must still go away
+        for kind in ("Map", "FMap"):
+            for par in ((1, 2, 3) if pid == "C09" else (1,)):
+                for cap in (0, 1, 2):
+                    for n in range(1, 2 * par + 2 * cap + 4):
+                        cfg = C(kind=kind, forked=pid == "C09", par=par, cap=cap, mode="try", inputs=[list(range(1, n + 1))], fail=list(range(1, n + 1)))
+                        out.append({"cfg": cfg, "cmds": [S()] * n, "epilogue": "cancel", "origin": "error-jam"})
     if pid == "C09":
         # more failures outstanding than the error channel holds while its reader lags behind (Try: one error per failing element)
         for kind in ("Map", "FMap"):
